@@ -41,7 +41,10 @@ def run(ctx):
     S3 = rep.rule('C09.R3', 'failed reload leaves the graph untouched (shared with C09)', floor=2)
     S4 = rep.rule('C10.R8', 'AssetMap::insert runs on_insert (the registration) whenever the entry was stored, and only then (shared with C10)', floor=2)
     S5 = rep.rule('C09.R1', 'a nested load gives the recorder back to the load around it: what that load reads afterwards is still recorded (CellGuard restores the previous recorder; shared with C09)', floor=5)
+    R8 = rep.rule('C05.R8', 'the plumbing between cache, reloader and graph: hot_reload asks the reloader, AddAsset / AddOwnedAsset reach the graph, an owned load does not downgrade a cached node, reloadable by default', floor=7)
     for cfg, F in ctx.hr_cfgs():
+        r8(R8, cfg, F)
+        R8.finish_cfg(cfg)
         from c09 import r1 as recorder_restored
         recorder_restored(S5, cfg, F)
         S5.finish_cfg(cfg)
@@ -60,6 +63,68 @@ def run(ctx):
         on_insert_iff_stored(S4, cfg, F)
         for r in (R1, R2, R3, R4, R5, R6, S1, S2, S3, S4):
             r.finish_cfg(cfg)
+
+
+def r8(R8, cfg, F):
+    """Each of these is a one-line link whose removal makes hot-reloading silently do nothing (every test that does not reload
+    keeps passing)."""
+    # (a) AssetCache::hot_reload hands the map to the reloader whenever there is one
+    b = F.body('cache::AssetCache::<S>::hot_reload')
+    if not b:
+        R8.missing(cfg, 'AssetCache::hot_reload')
+    else:
+        rl = [c for c in b.calls() if c.callee and c.callee.best == 'hot_reloading::HotReloader::reload']
+        ok = len(rl) == 1 and 'assets' in (common.deep_path(b, rl[0].args[1]) or [])
+        if ok:
+            gs = [x for x in common.guards_of(b, rl[0].bb)]
+            ok = len(gs) == 1 and gs[0][3][0] == 'discr' and 'reloader' in (common.deep_path(b, gs[0][3][1]) or []) and common.guard_variant(b, gs[0]) == 1 \
+                and common.inevitable(b, gs, rl[0].bb)
+        R8.check(ok, cfg, b.path, 'hot_reload->HotReloader::reload(assets)', 'hot_reload must call HotReloader::reload(&self.assets) whenever the cache has a reloader', b.loc())
+    # (b) the handlers of AddAsset / AddOwnedAsset store what they were sent
+    for h, callee, nargs in (('add_asset', 'insert_asset', 3), ('add_owned_asset', 'insert_owned_asset', 2)):
+        b = F.body('hot_reloading::paths::HotReloadingData::' + h)
+        if not b:
+            R8.missing(cfg, 'HotReloadingData::' + h)
+            continue
+        cs = [c for c in b.calls() if c.callee and c.callee.best == D + 'DepsGraph::' + callee]
+        ok = len(cs) == 1 and common.inevitable(b, [], cs[0].bb) and 'deps' in (common.deep_path(b, cs[0].args[0]) or [])
+        if ok:
+            ps = [common.strip_refs(common.deep_path(b, a, at=cs[0].bb)) for a in cs[0].args[1:1 + nargs]]
+            ok = all(p_ and p_[0] == 'arg2' for p_ in ps) and len({tuple(p_) for p_ in ps}) == nargs
+        R8.check(ok, cfg, b.path, h + '->DepsGraph::' + callee, 'the handler of the message must register the key, dependencies (and type) it was sent in the dependency graph, unconditionally', b.loc())
+    # (c) an owned load never takes the reloadable type away from a node whose asset is cached
+    b = F.body(D + 'DepsGraph::insert_owned_asset')
+    if not b:
+        R8.missing(cfg, 'DepsGraph::insert_owned_asset')
+    else:
+        ins = [c for c in b.calls() if c.callee and c.callee.best == D + 'DepsGraph::insert_node']
+        look = [c for c in b.calls() if c.callee and c.callee.name in ('get', 'get_mut') and 'HashMap' in c.callee.best]
+        isome = None
+        ok = len(ins) == 1 and len(look) == 1
+        if ok:
+            # the insertion runs unless the node exists and its typ is Some: removing the (node found, typ is Some) edges must cut it off
+            # from nothing else, and it must be unreachable through them
+            g_node = common.guarded_by_variant(b, ins[0].bb, [['call@bb%d' % look[0].bb]], 1)
+            typ_sw = [bb for bb, t in b.terms() if t['k'] == 'switch' and (common.switch_test(b, bb) or ('', []))[0] == 'discr' and 'typ' in ((common.switch_test(b, bb) or ('', []))[1] or [])]
+            ok = len(typ_sw) >= 1
+            if ok:
+                some_edges = [(sw, b.variant_edge(sw, 1)) for sw in typ_sw]
+                none_edges = [(sw, d) for sw in typ_sw for d, _ in b.edges(sw) if d != b.variant_edge(sw, 1)]
+                # (booleans followed path-sensitively: `let cached = matches!(..); if !cached {..}`)
+                via_some = any(ins[0].bb in common.reach_bool(b, d) for _, d in some_edges if d is not None)
+                via_none = any(ins[0].bb in common.reach_bool(b, d) for _, d in none_edges)
+                # after "the node exists and its typ is Some" the insertion must be unreachable; after "typ is None" it must be reachable
+                ok = not via_some and via_none
+        R8.check(ok, cfg, b.path, 'owned-load-keeps-cached-node', 'insert_owned_asset must leave a node whose asset is cached (typ is Some) as it is: overwriting it with typ = None stops the cached asset from reloading', b.loc())
+    # (d) reloadable unless a type says otherwise
+    for cp in ('asset::Asset::HOT_RELOADED', 'asset::Compound::HOT_RELOADED', '<dirs::Directory<T> as asset::Compound>::HOT_RELOADED', '<dirs::RecursiveDirectory<T> as asset::Compound>::HOT_RELOADED'):
+        cb = F.body(cp)
+        if not cb:
+            R8.missing(cfg, cp)
+            continue
+        rets = [st for _, _, st in cb.assigns() if st['place']['l'] == 0]
+        ok = len(rets) == 1 and rets[0]['rv']['k'] == 'use' and rets[0]['rv']['op'].get('text') == 'true'
+        R8.check(ok, cfg, cp, 'default-is-reloadable', '%s must be `true`: assets (and directories) follow their source unless their type opts out' % cp, cb.loc())
 
 
 def r1(R1, cfg, F):
